@@ -141,15 +141,36 @@ def _raw_only_disk(diskcache: Any) -> type:
     and ``Disk.fetch`` would unpickle it inside ``Cache.get`` - before
     ``DiskCache.get`` can authenticate anything. Such a row reads as a value
     that is neither bytes nor str, which ``DiskCache.get`` evicts.
+
+    The class is created once (diskcache is an optional, lazily imported
+    dependency) and published as ``hypergraph.cache._RawOnlyDisk``: a
+    ``diskcache.Cache`` pickles the type of its disk by name, and a DiskCache -
+    or a runner holding one - must stay picklable.
     """
+    global _RAW_ONLY_DISK
+    if _RAW_ONLY_DISK is None or _RAW_ONLY_DISK.__bases__[0] is not diskcache.Disk:
 
-    class _RawOnlyDisk(diskcache.Disk):
-        def fetch(self, mode: int, filename: Any, value: Any, read: bool) -> Any:
-            if mode == diskcache.core.MODE_PICKLE:
-                return _NOT_RAW
-            return super().fetch(mode, filename, value, read)
+        class _RawOnlyDisk(diskcache.Disk):
+            def fetch(self, mode: int, filename: Any, value: Any, read: bool) -> Any:
+                if mode == diskcache.core.MODE_PICKLE:
+                    return _NOT_RAW
+                return super().fetch(mode, filename, value, read)
 
-    return _RawOnlyDisk
+        _RawOnlyDisk.__qualname__ = "_RawOnlyDisk"
+        _RAW_ONLY_DISK = _RawOnlyDisk
+    return _RAW_ONLY_DISK
+
+
+_RAW_ONLY_DISK: type | None = None
+
+
+def __getattr__(name: str) -> Any:
+    # pickle resolves ``hypergraph.cache._RawOnlyDisk`` through this hook
+    if name == "_RawOnlyDisk":
+        import diskcache
+
+        return _raw_only_disk(diskcache)
+    raise AttributeError(f"module {__name__!r} has no attribute {name!r}")
 
 
 _NOT_RAW = object()
